@@ -200,8 +200,11 @@ class DAGRunConcurrentManager(DAGRunManagerLike):
                     continue
 
                 if self._is_switch(pred_node_id):
+                    switch_result = self._node_storage.get_switch_result(pred_node_id)
+
+                    # A switch without a selected case has failed, the error is stored as the result of the switch
                     kwargs[kwarg_name] = self._node_storage.get_node_result(
-                        self._node_storage.get_switch_result(pred_node_id).node_id,
+                        switch_result.node_id if switch_result is not None else pred_node_id,
                         with_hidden=True,
                     )
 
@@ -318,6 +321,20 @@ class DAGRunConcurrentManager(DAGRunManagerLike):
             return _NODE_ALREADY_PROCESSED
 
         self._node_storage.set_node_as_processed(node_id)
+
+        node_kwargs = self._get_node_kwargs(node_id)
+
+        for dependency_result in node_kwargs.values():
+            if isinstance(dependency_result, BaseException):
+                # The dependency has failed inside a OneOf subgraph, where an error is stored as the result.
+                # The node cannot be executed with an error instead of a value: it fails with the same error.
+                logger.debug('The node %s cannot be executed, a dependency has failed', node_id)
+
+                if dag.is_oneof:
+                    return dependency_result
+
+                raise dependency_result
+
         await self.ctx.emit_on_node_start(node_id=node_id)
 
         try:
@@ -326,7 +343,7 @@ class DAGRunConcurrentManager(DAGRunManagerLike):
             result = await self.__execute_node(
                 node_id=node_id,
                 force_default=force_default,
-                **self._get_node_kwargs(node_id),
+                **node_kwargs,
             )
 
             await self.ctx.emit_on_node_complete(node_id=node_id, error=None)
